@@ -2,7 +2,7 @@ import os, sys
 sys.path.insert(0, os.path.dirname(os.path.abspath(__file__)))
 import parfor_common
 
-THEOREMS = []
+THEOREMS = ["Dispenso.ParFor." + t for t in ['C12_partition', 'C12_exactly_once', 'C12_empty']]
 
 
 def run(ctx, replay):
